@@ -111,6 +111,21 @@ Proof.
   apply (GAll_counts S Lay C acct). eapply gmemo_acct; [exact Hm| |exact H]. apply GAll_reset.
 Qed.
 
+(* the counters are GHOST: started from trees that agree up to their counters, two evaluations that differ only in the
+   instrumentation (`mcalls`, `clossy`) return the same output and the same tree up to the counters -- so `memo_real` is "the
+   engine" whatever is counted, and theorems about outputs / caches / layouts do not depend on the instrumentation *)
+Theorem C16_real_counters_are_ghost :
+  forall (S In Out Lay : Type) (mode : In -> RunMode) (is_none : S -> bool) (hidden_out : Out) (zero_lay : Lay)
+         (algo : S -> list S -> In -> Alg In Out Lay)
+         (C : Type) (cget : C -> In -> option Out) (cstore : C -> In -> Out -> C) (cclear : C -> C)
+         (mcalls1 mcalls2 : S -> list S -> In -> N) (clossy1 clossy2 : C -> In -> bool) f t1 t2 i,
+    greset S Lay C t1 = greset S Lay C t2 ->
+    option_map (fun p => (fst p, greset S Lay C (snd p)))
+               (gmemo S In Out Lay mode is_none hidden_out zero_lay algo mcalls1 C cget clossy1 cstore cclear f t1 i)
+    = option_map (fun p => (fst p, greset S Lay C (snd p)))
+                 (gmemo S In Out Lay mode is_none hidden_out zero_lay algo mcalls2 C cget clossy2 cstore cclear f t2 i).
+Proof. intros. apply gmemo_counters_irrelevant. assumption. Qed.
+
 (* the instance the correspondence runs (block containers + leaves, real cache, any number structure): no premise -- a container
    never measures, a leaf at most once per evaluation (the log of Leaf.compute_leaf_layout, C19's kernel) -- for a whole
    compute_layout (compute_root_layout on the tree with the counters of the pass reset) *)
@@ -143,6 +158,7 @@ Example C16_real_chain_example :
 Proof. vm_compute. reflexivity. Qed.
 Print Assumptions C16_real_miss_count.
 Print Assumptions C16_real_pass_miss_count.
+Print Assumptions C16_real_counters_are_ghost.
 Print Assumptions C16_real_block_pass_counts.
 Print Assumptions C16_real_chain_bound_partial.
 End RealCache.
